@@ -1934,20 +1934,104 @@ Proof. intros s1 s2 j Heq. unfold get_store. rewrite Heq. reflexivity. Qed.
 (* ---- apply_load_coherence changes st_mo only ---- *)
 (* both the update of the loaded store and the propagation to the stores ordered after
    it go through [st_set_mo]: any projection that [st_set_mo] preserves is kept *)
+(* [l'] has the length of [l] and the same [g]-projection in every slot *)
+Definition keeps_proj {B : Type} (g : astore -> B) (l l' : list astore) : Prop :=
+  length l' = length l /\
+  forall j, g (nth j l' store_default) = g (nth j l store_default).
+
+Lemma keeps_proj_refl : forall (B : Type) (g : astore -> B) l, keeps_proj g l l.
+Proof. intros B g l. split; [reflexivity | intros j; reflexivity]. Qed.
+
+Lemma keeps_proj_trans : forall {B : Type} {g : astore -> B} {l1 l2 l3},
+  keeps_proj g l1 l2 -> keeps_proj g l2 l3 -> keeps_proj g l1 l3.
+Proof.
+  intros B g l1 l2 l3 [Hl12 Hg12] [Hl23 Hg23]. split.
+  - rewrite Hl23. exact Hl12.
+  - intros j. rewrite Hg23. apply Hg12.
+Qed.
+
+Section MoOnly.
+  Variable B : Type.
+  Variable g : astore -> B.
+  Hypothesis Hg : forall x m, g (st_set_mo x m) = g x.
+
+  Lemma raise_mo_keeps : forall stores a v, keeps_proj g stores (raise_mo stores a v).
+  Proof.
+    intros stores a v. unfold raise_mo. cbv zeta.
+    destruct (vv_eqb (vv_join (st_mo (nth a stores store_default)) v)
+                     (st_mo (nth a stores store_default))); [apply keeps_proj_refl|].
+    split.
+    - apply mapi_length.
+    - intros j. apply (nth_mapi_proj _ _ g). intros i x.
+      destruct (Nat.eqb a i); [apply Hg|].
+      destruct (vv_lt (st_mo (nth a stores store_default)) (st_mo x)); [apply Hg | reflexivity].
+  Qed.
+
+  Lemma close_step_keeps : forall acc ri, keeps_proj g (fst acc) (fst (close_step acc ri)).
+  Proof.
+    intros [stores changed] [r i]. unfold close_step. cbv zeta. cbn [fst].
+    destruct (st_rmw_src (nth r stores store_default)) as [[slot sid]|];
+      [|apply keeps_proj_refl].
+    destruct (negb (Nat.eqb slot r) && Nat.eqb (st_id (nth slot stores store_default)) sid);
+      [|apply keeps_proj_refl].
+    destruct (Nat.eqb i r || Nat.eqb i slot); [apply keeps_proj_refl|].
+    destruct (vv_le (st_mo (nth slot stores store_default)) (st_mo (nth i stores store_default)) &&
+              negb (vv_le (st_mo (nth r stores store_default)) (st_mo (nth i stores store_default))));
+      [apply raise_mo_keeps|].
+    destruct (vv_le (st_mo (nth i stores store_default)) (st_mo (nth r stores store_default)) &&
+              negb (vv_le (st_mo (nth i stores store_default)) (st_mo (nth slot stores store_default))));
+      [apply raise_mo_keeps | apply keeps_proj_refl].
+  Qed.
+
+  Lemma close_fold_keeps : forall ris acc,
+    keeps_proj g (fst acc) (fst (fold_left close_step ris acc)).
+  Proof.
+    induction ris as [|ri ris IH]; intros acc.
+    - apply keeps_proj_refl.
+    - cbn [fold_left].
+      apply (keeps_proj_trans (close_step_keeps acc ri)). apply IH.
+  Qed.
+
+  Lemma close_rmw_atomicity_keeps : forall fuel live stores,
+    keeps_proj g stores (close_rmw_atomicity fuel live stores).
+  Proof.
+    induction fuel as [|f IH]; intros live stores.
+    - apply keeps_proj_refl.
+    - cbn [close_rmw_atomicity].
+      pose proof (close_fold_keeps (list_prod (seq 0 live) (seq 0 live)) (stores, false)) as Hfold.
+      destruct (fold_left close_step (list_prod (seq 0 live) (seq 0 live)) (stores, false))
+        as [stores' changed].
+      cbn [fst] in Hfold. destruct changed; [|exact Hfold].
+      apply (keeps_proj_trans Hfold). apply IH.
+  Qed.
+
+  (* the part of apply_load_coherence before the RMW-atomicity closure *)
+  Lemma alc_keeps_all : forall s caus idx,
+    keeps_proj g (at_stores s) (at_stores (apply_load_coherence s caus idx)).
+  Proof.
+    intros s caus idx. unfold apply_load_coherence. cbv zeta.
+    rewrite at_stores_set_stores.
+    eapply keeps_proj_trans; [|apply close_rmw_atomicity_keeps].
+    assert (Hupd : forall m, keeps_proj g (at_stores s)
+                     (list_upd (at_stores s) idx (fun x => st_set_mo x m))).
+    { intros m. split; [apply list_upd_length|].
+      intros j. apply (nth_list_upd_proj _ _ g). intros x. apply Hg. }
+    match goal with |- context [if ?c then _ else _] => destruct c end; [apply Hupd|].
+    eapply keeps_proj_trans; [apply Hupd|].
+    split; [apply mapi_length|].
+    intros j. apply (nth_mapi_proj _ _ g). intros i x.
+    match goal with |- context [if ?c then _ else _] => destruct c end;
+      [apply Hg | reflexivity].
+  Qed.
+End MoOnly.
+
 Lemma alc_keeps_proj : forall (B : Type) (g : astore -> B),
   (forall x m, g (st_set_mo x m) = g x) ->
   forall s caus idx j,
   g (get_store (apply_load_coherence s caus idx) j) = g (get_store s j).
 Proof.
-  intros B g Hg s caus idx j. unfold apply_load_coherence, get_store. cbv zeta.
-  rewrite at_stores_set_stores.
-  match goal with |- context [if ?c then _ else _] => destruct c end.
-  - apply (nth_list_upd_proj _ _ g). intros x. apply Hg.
-  - rewrite (nth_mapi_proj _ _ g).
-    + apply (nth_list_upd_proj _ _ g). intros x. apply Hg.
-    + intros i x.
-      match goal with |- context [if ?c then _ else _] => destruct c end;
-        [apply Hg | reflexivity].
+  intros B g Hg s caus idx j. unfold get_store.
+  destruct (alc_keeps_all _ g Hg s caus idx) as [_ Hnth]. apply Hnth.
 Qed.
 
 Lemma alc_keeps_sync : forall s caus idx j,
@@ -1964,11 +2048,8 @@ Proof. reflexivity. Qed.
 Lemma alc_keeps_length : forall s caus idx,
   length (at_stores (apply_load_coherence s caus idx)) = length (at_stores s).
 Proof.
-  intros s caus idx. unfold apply_load_coherence. cbv zeta.
-  rewrite at_stores_set_stores.
-  match goal with |- context [if ?c then _ else _] => destruct c end.
-  - apply list_upd_length.
-  - rewrite mapi_length. apply list_upd_length.
+  intros s caus idx.
+  destruct (alc_keeps_all _ st_sync (fun x m => eq_refl) s caus idx) as [Hlen _]. exact Hlen.
 Qed.
 
 (* ---- the state after the load part of load / rmw ---- *)
